@@ -21,7 +21,7 @@ for p in props:
             replay_cmd_template='./check --replay {path}',
             engine=c['engine'],
             level_claimed=dict(category=ML.LEVELS[pid], text=c['text'], design_ref=c['design_ref']),
-            level_note=c['note'] + (' Bounded representation- / history-independence contracts (contracts/personas.py) and the state-reconstruction oracle over random operation histories (contracts/fuzz.py) run with this check and are counted under bounded_cases, never as proved.' if pid in PERSONA_PROPS else '') + ' A bounded size-sweeping contract (contracts/sizes.py: the same law on inputs that cross size thresholds, which the fixed-size symbolic configurations cannot reach) also runs with this check, counted under bounded_cases.',
+            level_note=c['note'] + (' Bounded representation- / history-independence contracts (contracts/personas.py) and the state-reconstruction oracle over random operation histories (contracts/fuzz.py) run with this check and are counted under bounded_cases, never as proved.' if pid in PERSONA_PROPS else '') + ' A bounded size-sweeping contract (contracts/sizes.py: the same law on inputs that cross size thresholds, which the fixed-size symbolic configurations cannot reach) also runs with this check, counted under bounded_cases; so do, where the property has one, the bounded aliased-argument contracts of contracts/aliasing.py.',
             technique=c['technique'],
         ))
     else:
